@@ -424,8 +424,24 @@ func c04Families(quick bool) []c04Fam {
 		}
 		return f
 	}
+	// the same spaces with every @empty alternative moved into a rule of its own
+	indirect := func(f c04Fam) c04Fam {
+		get := f.get
+		f.name += "-indirect"
+		f.str += ", @empty alternatives replaced by a reference to an empty rule"
+		f.get = func(i int64) *gen.Grammar {
+			g := get(i)
+			if g != nil {
+				g = g.IndirectEmpty()
+			}
+			return g
+		}
+		return f
+	}
 	if quick {
 		return []c04Fam{
+			indirect(sp("plain", gen.NewSpace(2, 2, 2, 2, false), 0, false)),
+			indirect(sp("plain3", gen.NewSpace(3, 2, 2, 2, false), 200000, false)),
 			named(sp("plain", gen.NewSpace(2, 2, 2, 2, false), 0, false)),
 			named(sp("plain-l3", gen.NewSpace(2, 2, 2, 3, false), 150000, false)),
 			named(ex("prec", gen.NewExprSpace(2, 1), 0)),
@@ -439,6 +455,8 @@ func c04Families(quick bool) []c04Fam {
 		}
 	}
 	return []c04Fam{
+		indirect(sp("plain", gen.NewSpace(2, 2, 2, 2, false), 0, false)),
+		indirect(sp("plain3", gen.NewSpace(3, 2, 2, 2, false), 2000000, false)),
 		named(sp("plain", gen.NewSpace(2, 2, 2, 2, false), 0, false)),
 		named(sp("plain-t3", gen.NewSpace(2, 3, 2, 2, false), 0, false)),
 		named(ex("prec", gen.NewExprSpace(2, 1), 0)),
